@@ -47,6 +47,9 @@ class FsRun:
         self.quiet = True  # nothing in flight: observer just started or a drain just completed
         self.vanished = []
         self.busy = False  # a multi-primitive operation is in progress (the model lags behind the real tree)
+        self.ever = {"root"}
+        self.backend = self.w.get("backend", "inotify")
+        self.poll_interval = 1.0
 
     # ------------------------------------------------------------------ paths
     def real(self, rel):
@@ -107,7 +110,9 @@ class FsRun:
 
     def install(self, p, sim):
         M = self.modules()
-        prims.install_base(p, modules_threading=[M["api"], M["ino"], M["ic"], M["dq"]], modules_time=[M["dq"]])
+        import watchdog.observers.polling as pol
+
+        prims.install_base(p, modules_threading=[M["api"], M["ino"], M["ic"], M["dq"], pol], modules_time=[M["dq"]])
         self.kshim = kshim.install(p, sim, top=self.topb, faults=self.case.get("faults"))
         self.kshim.vanish_hook = self.vanish
         p.set(M["ib"].InotifyBuffer, "delay", self.case.get("delay", 0.5))
@@ -133,6 +138,10 @@ class FsRun:
         sim = prims.cur_sim()
         run = self
         base = M["ino"].InotifyFullEmitter if self.full else M["ino"].InotifyEmitter
+        if self.backend == "polling":
+            import watchdog.observers.polling as pol
+
+            base = pol.PollingEmitter
         n = [0]
 
         class Em(base):
@@ -161,7 +170,8 @@ class FsRun:
                 sh = run.shape(e)
                 rec = {"seq": sim.next_seq(), "opi": run.opi, "ev": e, "shape": sh, "h": self.hid, "phase": run.phase}
                 run.events.append(rec)
-                sim.rec("ev", self.hid, sh)
+                if run.backend != "polling":  # the order inside one poll depends on str hashes of scratch paths
+                    sim.rec("ev", self.hid, sh)
                 wp = run.watch_path()
                 want_bytes = isinstance(wp, bytes)
                 for pth in (e.src_path, getattr(e, "dest_path", "")):
@@ -173,7 +183,7 @@ class FsRun:
                     handler_hook(self, e)
 
         self.emitter_class = Em
-        self.observer = M["api"].BaseObserver(Em)
+        self.observer = M["api"].BaseObserver(Em, timeout=self.poll_interval)
         self.H = H
         self.handlers = [H(0)]
         return self.observer
@@ -254,7 +264,13 @@ class FsRun:
         if not pre and k != "drain":
             sim.yield_point("op")
         if k == "drain":
-            sim.wait_quiescent()
+            if self.backend == "polling":
+                # periodic timer: no quiescence; one and a half poll intervals, then one more tick so that a poll that
+                # coincides with the wake-up has completed (the clock only advances when nobody is runnable)
+                sim.sleep(1.5 * self.poll_interval)
+                sim.sleep(1.0 / 1024)
+            else:
+                sim.wait_quiescent()
             m.drain()
             if self.contracts:
                 self.contracts[-1]["drained"] = True
@@ -356,6 +372,7 @@ class FsRun:
         before = fm.Model.__new__(fm.Model)
         before.t = dict(m.t)
         fm.apply(m, op)
+        self.ever.update(m.t)
         if not pre:
             fm.taint_after(before, m, op)
 
